@@ -202,7 +202,7 @@ package tcp
 // FIN, ghost(sentFin) segments with FIN.
 
 // Validity of a connected endpoint's sender (type invariant of initialised objects).
-//@ define sndOK(s) = s != nil && s.ep != nil && s.ep.rcv != nil && s.ep.rcv.ep != nil && s.resendTimer.timer != nil && s.ep.keepalive.timer.timer != nil
+//@ define sndOK(s) = s != nil && s.ep != nil && s.ep.rcv != nil && s.ep.rcv.ep != nil && s.resendTimer.timer != nil && s.ep.keepalive.timer.timer != nil && 0 <= s.ep.sack.NumBlocks && s.ep.sack.NumBlocks <= MaxSACKBlocks
 
 // ASSUMED: the option pool hands out 40-byte buffers (sync.Pool with New = make([]byte, 40);
 // putOptions returns them resliced to full capacity).
@@ -228,14 +228,13 @@ package tcp
 // sendRaw emits exactly one segment with the given flags, sequence and acknowledgement numbers
 // (verified down to the hand-over to the network layer, see sendTCP).
 //@ func (*endpoint).sendRaw props C05 C04 C06 C03
-//@   requires e != nil && 0 <= data.size && data.size <= 1 << 30 && 0 <= e.sack.NumBlocks && e.sack.NumBlocks <= MaxSACKBlocks
-//@   requires forall(k, 0, len(data.views), len(data.views[k]) <= 65536)
+//@   requires e != nil && 0 <= e.sack.NumBlocks && e.sack.NumBlocks <= MaxSACKBlocks
 //@   requires implies(e.state == stateConnected, e.rcv != nil)
 //@   ensures ghost(tcpSegs) == old(ghost(tcpSegs)) + 1
 //@   ensures ghost(lastTCPFlags) == int(flags) && ghost(lastTCPSeq) == int(uint32(seq)) && ghost(lastTCPAck) == int(uint32(ack))
 //@   ensures ghost(sentNonFin) == old(ghost(sentNonFin)) + ite(flags & flagFin == 0, 1, 0)
 //@   ensures ghost(sentFin) == old(ghost(sentFin)) + ite(flags & flagFin != 0, 1, 0)
-//@   modifies everything(), ghost(tcpSegs), ghost(lastTCPFlags), ghost(lastTCPSeq), ghost(lastTCPAck), ghost(sentNonFin), ghost(sentFin)
+//@   modifies everything_but("protocol/transport/tcp.sender", "protocol/transport/tcp.receiver", "protocol/transport/tcp.endpoint", "protocol/transport/tcp.segment"), structfamily("protocol/transport/tcp.endpoint", "segmentQueue"), ghost(tcpSegs), ghost(lastTCPFlags), ghost(lastTCPSeq), ghost(lastTCPAck), ghost(sentNonFin), ghost(sentFin)
 
 // The advertised right edge never moves backwards (serial order) and the returned window is
 // the distance to it, scaled.
@@ -247,10 +246,12 @@ package tcp
 
 //@ func (*sender).sendSegment props C05 C04
 //@   requires s != nil && s.ep != nil && s.ep.rcv != nil && s.ep.rcv.ep != nil
+//@   requires 0 <= s.ep.sack.NumBlocks && s.ep.sack.NumBlocks <= MaxSACKBlocks && implies(s.ep.state == stateConnected, s.ep.rcv != nil)
 //@   ensures ghost(sentNonFin) == old(ghost(sentNonFin)) + ite(flags & flagFin == 0, 1, 0)
 //@   ensures ghost(sentFin) == old(ghost(sentFin)) + ite(flags & flagFin != 0, 1, 0)
 //@   ensures s.maxSentAck == s.ep.rcv.rcvNxt
-//@   modifies s.lastSendTime, s.rttMeasureTime, s.maxSentAck, s.ep.rcv.rcvAcc, ghost(sentNonFin), ghost(sentFin)
+//@   modifies everything_but("protocol/transport/tcp.sender", "protocol/transport/tcp.receiver", "protocol/transport/tcp.endpoint", "protocol/transport/tcp.segment"), structfamily("protocol/transport/tcp.endpoint", "segmentQueue"), ghost(tcpSegs), ghost(lastTCPFlags), ghost(lastTCPSeq), ghost(lastTCPAck), ghost(sentNonFin), ghost(sentFin)
+//@   modifies s.lastSendTime, s.rttMeasureTime, s.maxSentAck, s.ep.rcv.rcvAcc
 
 //@ func (*endpoint).disableKeepaliveTimer props C05 C04
 //@   requires e != nil
@@ -272,10 +273,11 @@ package tcp
 //@   ensures ghost(sentNonFin) - old(ghost(sentNonFin)) == s.outstanding - old(s.outstanding)
 //@   loop 1 invariant s.outstanding >= old(s.outstanding) && (s.outstanding == old(s.outstanding) || s.outstanding <= s.sndCwnd) && s.outstanding <= 1 << 41
 //@   loop 1 invariant ghost(sentNonFin) - old(ghost(sentNonFin)) == s.outstanding - old(s.outstanding)
+//@   modifies everything_but("protocol/transport/tcp.sender", "protocol/transport/tcp.receiver", "protocol/transport/tcp.endpoint", "protocol/transport/tcp.segment"), structfamily("protocol/transport/tcp.endpoint", "segmentQueue"), ghost(tcpSegs), ghost(lastTCPFlags), ghost(lastTCPSeq), ghost(lastTCPAck), ghost(sentNonFin), ghost(sentFin)
 //@   modifies s.sndCwnd, s.outstanding, s.sndNxt, s.writeNext, s.writeList.tail, s.lastSendTime, s.rttMeasureTime, s.maxSentAck
 //@   modifies s.resendTimer.state, s.resendTimer.target, s.resendTimer.runtimeTarget, s.ep.rcv.rcvAcc
 //@   modifies s.ep.keepalive.unacked, s.ep.keepalive.timer.state, s.ep.keepalive.timer.target, s.ep.keepalive.timer.runtimeTarget
-//@   modifies structfamily(segment), elemfamily(buffer.View), structfamily(stack.referencedNetworkEndpoint), ghost(sentNonFin), ghost(sentFin)
+//@   modifies structfamily(segment)
 
 // Retransmission timeout (Reno). Three outcomes: a spurious wake-up changes nothing that
 // matters; after a minute of back-off the connection is given up (false); otherwise the
@@ -291,11 +293,12 @@ package tcp
 //@            && 0 <= s.outstanding && s.outstanding <= 1 && ghost(sentNonFin) - old(ghost(sentNonFin)) == s.outstanding
 //@            && old(s.resendTimer.state) != timerStateOrphaned)
 //@   ensures s.rto >= 200000000
+//@   modifies everything_but("protocol/transport/tcp.sender", "protocol/transport/tcp.receiver", "protocol/transport/tcp.endpoint", "protocol/transport/tcp.segment"), structfamily("protocol/transport/tcp.endpoint", "segmentQueue"), ghost(tcpSegs), ghost(lastTCPFlags), ghost(lastTCPSeq), ghost(lastTCPAck), ghost(sentNonFin), ghost(sentFin)
 //@   modifies s.rto, s.fr.active, s.fr.first, s.fr.last, s.fr.maxCwnd, s.dupAckCount, s.sndSsthresh
 //@   modifies s.sndCwnd, s.outstanding, s.sndNxt, s.writeNext, s.writeList.tail, s.lastSendTime, s.rttMeasureTime, s.maxSentAck
 //@   modifies s.resendTimer.state, s.resendTimer.target, s.resendTimer.runtimeTarget, s.ep.rcv.rcvAcc
 //@   modifies s.ep.keepalive.unacked, s.ep.keepalive.timer.state, s.ep.keepalive.timer.target, s.ep.keepalive.timer.runtimeTarget
-//@   modifies structfamily(segment), elemfamily(buffer.View), structfamily(stack.referencedNetworkEndpoint), ghost(sentNonFin), ghost(sentFin)
+//@   modifies structfamily(segment)
 
 // ---------------------------------------------------------------------------
 // Segment construction and stray segments (C06, C03, C07).
@@ -306,8 +309,7 @@ package tcp
 // sendTCP emits exactly one segment carrying the given flags, sequence and acknowledgement
 // numbers, with a data offset that covers the 20 header bytes and the options.
 //@ func sendTCP props C06 C03 C07
-//@   requires r != nil && len(opts) <= 40 && len(opts) % 4 == 0 && 0 <= data.size && data.size <= 1 << 30
-//@   requires forall(k, 0, len(data.views), len(data.views[k]) <= 65536)
+//@   requires r != nil && len(opts) <= 40 && len(opts) % 4 == 0
 //@   ensures ghost(tcpSegs) == old(ghost(tcpSegs)) + 1
 //@   ensures ghost(lastTCPFlags) == int(flags)
 //@   ensures ghost(lastTCPSeq) == int(uint32(seq))
@@ -315,7 +317,7 @@ package tcp
 //@   ensures ghost(sentNonFin) == old(ghost(sentNonFin)) + ite(flags & flagFin == 0, 1, 0)
 //@   ensures ghost(sentFin) == old(ghost(sentFin)) + ite(flags & flagFin != 0, 1, 0)
 //@   loop 1 invariant -1 <= rangeindex && rangeindex < len(data.views)
-//@   modifies everything(), ghost(tcpSegs), ghost(lastTCPFlags), ghost(lastTCPSeq), ghost(lastTCPAck), ghost(sentNonFin), ghost(sentFin)
+//@   modifies everything_but("protocol/transport/tcp.sender", "protocol/transport/tcp.receiver", "protocol/transport/tcp.endpoint", "protocol/transport/tcp.segment"), structfamily("protocol/transport/tcp.endpoint", "segmentQueue"), ghost(tcpSegs), ghost(lastTCPFlags), ghost(lastTCPSeq), ghost(lastTCPAck), ghost(sentNonFin), ghost(sentFin)
 
 // A parsed segment: the fields are those of the header; the data offset must lie between 20
 // and the bytes present in the first view, otherwise parsing fails and nothing is read beyond
@@ -359,4 +361,5 @@ package tcp
 //@   ensures implies(result, ghost(tcpSegs) == old(ghost(tcpSegs)))
 //@   ensures implies(!result, ghost(tcpSegs) == old(ghost(tcpSegs)) + 1 && ghost(lastTCPFlags) == int(flagRst | flagAck) && ghost(lastTCPSeq) == int(uint32(old(s.ackNumber)))
 //@             && ghost(lastTCPAck) == int(uint32(old(s.sequenceNumber) + seqnum.Value(old(s.logicalLen())))))
-//@   modifies everything(), ghost(tcpSegs), ghost(lastTCPFlags), ghost(lastTCPSeq), ghost(lastTCPAck), ghost(sentNonFin), ghost(sentFin)
+
+//@   modifies everything_but("protocol/transport/tcp.sender", "protocol/transport/tcp.receiver", "protocol/transport/tcp.endpoint", "protocol/transport/tcp.segment"), structfamily("protocol/transport/tcp.endpoint", "segmentQueue"), ghost(tcpSegs), ghost(lastTCPFlags), ghost(lastTCPSeq), ghost(lastTCPAck), ghost(sentNonFin), ghost(sentFin)
